@@ -10,6 +10,7 @@ import (
 	"fmt"
 	"net/http"
 	"net/http/httptest"
+	"net/url"
 	"sort"
 	"strings"
 	"testing"
@@ -84,9 +85,9 @@ func c02Masq(c *c02Case) http.Handler {
 
 // c02Expected runs the configured masquerade handler alone on an identical request.
 func c02Expected(c *c02Case, remote string) *vh3.Response {
-	req, _ := http.NewRequest(c.Method, "https://placeholder"+c.Path, nil)
-	req.Host = c.Host
-	req.URL.Host = c.Host
+	u, _ := url.ParseRequestURI(c.Path)
+	u.Host = c.Host
+	req := &http.Request{Method: c.Method, URL: u, Host: c.Host}
 	req.Header = c02Header(c)
 	req.RemoteAddr = remote
 	req.Proto, req.ProtoMajor, req.ProtoMinor = "HTTP/3.0", 3, 0
@@ -115,8 +116,11 @@ func c02HeaderString(h http.Header) string {
 
 // reference: is this an accepted authentication request?
 func c02Accepted(c *c02Case) bool {
+	// the path component as HTTP defines it: query stripped, percent-encoding decoded
 	path := c.Path
-	if i := strings.IndexByte(path, '?'); i >= 0 {
+	if u, err := url.ParseRequestURI(c.Path); err == nil {
+		path = u.Path
+	} else if i := strings.IndexByte(path, '?'); i >= 0 {
 		path = path[:i]
 	}
 	if c.Method != "POST" || c.Host != "hysteria" || path != "/auth" {
@@ -225,6 +229,13 @@ func c02NearMiss(c *c02Case) bool {
 
 func c02Enumerate(sh *evidence.Shard) {
 	env := sh.Env()
+	if env.Thorough() {
+		c02Methods = append(c02Methods, "PATCH", "DELETE", "TRACE", "Post", "POSTX")
+		c02Hosts = append(c02Hosts, "HYSTERIA", "hysteria:80", "hysteria..", "xhysteria", "hysteria.example.com", "[::1]", "hysteria@evil")
+		c02Paths = append(c02Paths, "/%61uth", "/auth%2F", "/auth/../auth", "/auth#frag", "/auth;x=1", "/AUTH", "/auth?", "/a", "*")
+		c02Auths = append(c02Auths, "GOOD", "good ", " good", "goodx")
+		c02RXs = append(c02RXs, "18446744073709551616", "-1")
+	}
 	p := sh.Part("requests", "enum")
 	p.Alphabet = map[string]any{"method": c02Methods, "host": c02Hosts, "path": c02Paths, "Hysteria-Auth": c02Auths,
 		"Hysteria-CC-RX": c02RXs, "noise": c02Noises, "masquerade": []string{"default 404", "custom echo handler"}, "history": c02Histories}
@@ -238,6 +249,9 @@ func c02Enumerate(sh *evidence.Shard) {
 							for _, rx := range c02RXs {
 								for _, no := range c02Noises {
 									c := c02Case{Method: m, Host: h, Path: pa, Auth: au, RX: rx, Noise: no, Masq: mq, History: hi}
+									if _, err := url.ParseRequestURI(pa); err != nil {
+										continue // not a request an HTTP/3 server hands to its handler
+									}
 									if !env.Thorough() {
 										// quick: full product on a fresh connection for auth/rx variation only on
 										// near-misses; history variants for the near-miss requests
